@@ -183,3 +183,57 @@ Theorem c06_history_calls : forall W e json id cls cap have rcs (h : list top),
   rc_fit x -> html_rc_calls x = Ok (expected_calls (hist_html_spec e id cls cap have rcs h)).
 Proof. exact html_history_calls. Qed.
 Print Assumptions c06_history_calls.
+
+(* THE WRAPPER AS A LONG-LIVED OBJECT (Model/HtmlWrap.v, Spec/HtmlWrapSpec.v,
+   Proofs/HtmlWrapProofs.v).  A history is any sequence of: a table created or
+   built further (HTable), html.Wrap (HWrap), a by-value copy of a wrapper
+   (HCopy: the copy shares the original's parsed template), the exported Table
+   field pointed at another table (HPoint), Id / Class / Caption / the row-class
+   generator set again (HConf), a render (HRender) and a render that fails
+   part-way (HRenderFails) - over any number of tables and wrappers.  The
+   machine keeps what the code keeps (a template parsed at a wrapper's first
+   render, whose functions are closures over a wrapper and are registered again
+   at every render); hspec_renders reads off the history, with no memory of
+   earlier renders, the settings of each rendered wrapper and the view of the
+   table it points at, both AS THEY ARE AT THAT RENDER. *)
+From Tab Require Import Model.HtmlWrap Spec.HtmlWrapSpec Proofs.HtmlWrapProofs.
+
+(* every render of every history is the template run on the wrapper's current
+   settings over the current view of the table it currently points at *)
+Theorem c06_wrapper_refines : forall ops, h_outputs ops = map exec_of (hspec_renders ops).
+Proof. exact wrapper_refines. Qed.
+Print Assumptions c06_wrapper_refines.
+
+(* so whatever was rendered before, through this wrapper or a copy of it, and
+   wherever the wrapper pointed then: the k-th render of a history is the fixed
+   skeleton over exactly the strings of ITS table and ITS settings, and the
+   generator is called with 0 and the positions of that table's rows *)
+Theorem c06_wrapper_history : forall ops k cv,
+  nth_error (hspec_renders ops) k = Some (Ok cv) -> rc_fit (in_of cv) ->
+  exists out calls,
+    nth_error (h_outputs ops) k = Some (Ok (out, calls))
+    /\ tokenize out = Some (skeleton (spec_nul_subst (spec_of (in_of cv))))
+    /\ calls = expected_calls (spec_of (in_of cv)).
+Proof. exact wrapper_history. Qed.
+Print Assumptions c06_wrapper_history.
+
+(* non-vacuity: one wrapper rendered, pointed at a second table (a separator
+   in it) and rendered again, copied by value, the copy pointed back at the
+   first table with the generator removed and rendered, the second table built
+   further, the original rendered again *)
+Example c06_wrapper_example :
+  let c s := mkVCell s false None 0 0 false in
+  let v0 := mkView 1%nat (Some [c [97]]) [Some [c [98]]] [None; None] [None; None] in
+  let v1 := mkView 2%nat (Some [c [99]; c [100]]) [None; Some [c [60]; c [101]]] [None; None; None] [None; None; None] in
+  let v1' := mkView 2%nat (Some [c [99]; c [100]]) [None; Some [c [60]; c [101]]; Some []] [None; None; None] [None; None; None] in
+  let g := Some [[114]; [115]; [116]] in
+  let ops := [HTable 0 v0; HTable 1 v1; HWrap 0; HConf 0 [] [120] [] g; HRender 0;
+              HPoint 0 1; HRender 0;
+              HCopy 0; HPoint 1 0; HConf 1 [105] [] [] None; HRender 1;
+              HTable 1 v1'; HRender 0] in
+  hspec_renders ops = [Ok (mkCfg 0 [] [120] [] g, v0); Ok (mkCfg 1 [] [120] [] g, v1);
+                       Ok (mkCfg 0 [105] [] [] None, v0); Ok (mkCfg 1 [] [120] [] g, v1')]
+  /\ map (fun r => bind r (fun o => Ok (snd o))) (h_outputs ops)
+     = [Ok [0; 1]; Ok [0; 2]; Ok []; Ok [0; 2; 3]]%nat
+  /\ h_outputs ops = map exec_of (hspec_renders ops).
+Proof. cbv zeta. split; [|split]; vm_compute; reflexivity. Qed.
